@@ -506,7 +506,47 @@ def run(res, a):
             run_json(res, rng, a.tier, {"id": "replay", "line": rep["case"], "kind": "json/replay"})
         else:
             k = rep["case"].split(" ")[0]
+            if k == "sweep":
+                lo, hi = rep["case"].split(" ")[1:3]
+                go = core.shard_run(os.path.join(core.BUILD, "hcdrv"), "config", ["w sweep %s %s" % (lo, hi)], timeout=5400)
+                res.cases += 1
+                if not go.get("w", "").startswith("ok"):
+                    res.violations.append(("sweep", dict(rep, implementation_observed=go.get("w", ""))))
+                return
             core.run_correspondence(res, FAMILY, [{"id": "replay", "line": rep["case"], "kind": k}], mod)
         return
     core.run_correspondence(res, FAMILY, core.load_corpus(FAMILY) + gen(rng, a.tier), mod)
     run_json(res, rng, a.tier)
+    run_sweep(res, a.tier)
+
+
+def run_sweep(res, tier):
+    """implementation side only: every eight-digit code (thorough: all 10^8; quick: two million around the boundaries)"""
+    if tier == "thorough":
+        step = 10 ** 8 // 64
+        ranges = [(i * step, (i + 1) * step) for i in range(64)]
+    else:
+        ranges = [(0, 250000), (11000000, 11250000), (12300000, 12400000), (87600000, 87700000), (99750000, 100000000)] + \
+                 [(d * 11111111 - 50000, d * 11111111 + 50000) for d in range(1, 10)]
+    lines = ["w%d sweep %d %d" % (i, lo, hi) for i, (lo, hi) in enumerate(ranges)]
+    go = core.shard_run(os.path.join(core.BUILD, "hcdrv"), "config", lines, timeout=5400)
+    n = acc = 0
+    bad = None
+    for i, (lo, hi) in enumerate(ranges):
+        o = go.get("w%d" % i, "NO-OUTPUT")
+        m = re.match(r"ok n=(\d+) acc=(\d+)$", o)
+        if m:
+            n += int(m.group(1))
+            acc += int(m.group(2))
+        elif bad is None:
+            bad = (lo, hi, o)
+    res.cases += n
+    res.count("kind:sweep-codes", n)
+    res.count("outcome:sweep/accepted", acc)
+    res.extra["codes_swept"] = n
+    if tier == "thorough" and bad is None and acc != 10 ** 8 - 12:
+        bad = (0, 10 ** 8, "accepted %d codes, expected 10^8 - 12" % acc)
+    if bad:
+        res.violations.append(("sweep", {"property": ID, "family": "config", "seed": res.seed, "case": "sweep %d %d" % bad[:2],
+                                         "implementation_observed": bad[2], "required": "every eight-digit code is accepted iff it is not trivial, is formatted XXX-XX-XXX, and its setup URI decodes to code, category and flags",
+                                         "failing_input_found": True, "replay": "python3 tools/check.py C20 --replay <this file>"}))
